@@ -49,6 +49,7 @@ pub fn new_box(area: &str) -> Option<Box<dyn VerifBox>> {
 /// Names of all adapters.
 pub fn areas() -> Vec<&'static str> {
     vec![
+        "c02",
         "c03",
         "c04",
         "c07",
@@ -59,7 +60,6 @@ pub fn areas() -> Vec<&'static str> {
         "c18",
         "c19",
     ]
-    vec!["c17", "c02"]
 }
 
 /// Decode a hex string.
